@@ -78,6 +78,39 @@ func vkSeedWorld(w *vkSrvWorld) {
 		m.Answer = []dns.RR{vkRR("cn.t. 300 IN CNAME hit.t.")}
 		return m
 	}
+	// validated alias (AD=1) whose target was validated when the alias was admitted and is
+	// re-admitted unvalidated afterwards: the only way both stored pieces end up AD=1 / AD=0
+	tgtAD := true
+	sc["tgt.t."] = func(req *dns.Msg) *dns.Msg {
+		m := vkReplyTo(req)
+		m.AuthenticatedData = tgtAD
+		m.Answer = []dns.RR{vkRR("tgt.t. 300 IN A 192.0.2.70")}
+		return m
+	}
+	sc["cnad.t."] = func(req *dns.Msg) *dns.Msg {
+		m := vkReplyTo(req)
+		m.AuthenticatedData = true
+		m.Answer = []dns.RR{vkRR("cnad.t. 300 IN CNAME tgt.t.")}
+		return m
+	}
+	defer func() {
+		// after everything is admitted: the target loses its validated status
+		tgtAD = false
+		if pg, ok := w.s.pipeline.Get("cache").(interface{ Purge(dns.Question) }); ok {
+			pg.Purge(dns.Question{Name: "tgt.t.", Qtype: dns.TypeA, Qclass: dns.ClassINET})
+		}
+		client := netip.MustParseAddrPort("198.51.100.7:5300")
+		for _, cd := range []bool{false, true} {
+			p := vkBasePkt("tgt.t.", dns.TypeA)
+			p.OPT, p.DO, p.Size, p.CD = true, true, 4096, cd
+			w.serve(vkPathDecoded, "tcp", client, p.build())
+		}
+	}()
+	sc["cnsig.t."] = func(req *dns.Msg) *dns.Msg { // unvalidated alias pointing at a validated, signed target
+		m := vkReplyTo(req)
+		m.Answer = []dns.RR{vkRR("cnsig.t. 300 IN CNAME sig.t.")}
+		return m
+	}
 	sc["cnu.t."] = func(req *dns.Msg) *dns.Msg {
 		m := vkReplyTo(req)
 		m.Answer = []dns.RR{vkRR("cnu.t. 300 IN CNAME uncached.t.")}
@@ -174,7 +207,7 @@ func vkSeedWorld(w *vkSrvWorld) {
 	}
 	// admission: ask each once through the decoded entry, DO set so the complete answer is stored
 	client := netip.MustParseAddrPort("198.51.100.7:5300")
-	for _, n := range []string{"hit.t.", "cn.t.", "cnu.t.", "sig.t.", "nx.t.", "nd.t.", "ede.t.", "big.t.", "mid.t.", "xtra.t.", "sf.t.", "ref.t."} {
+	for _, n := range []string{"hit.t.", "sig.t.", "tgt.t.", "cn.t.", "cnad.t.", "cnsig.t.", "cnu.t.", "nx.t.", "nd.t.", "ede.t.", "big.t.", "mid.t.", "xtra.t.", "sf.t.", "ref.t."} {
 		for _, cd := range []bool{false, true} {
 			p := vkBasePkt(n, dns.TypeA)
 			p.OPT, p.DO, p.Size, p.CD = true, true, 4096, cd
@@ -185,7 +218,7 @@ func vkSeedWorld(w *vkSrvWorld) {
 	w.serve(vkPathDecoded, "tcp", client, p.build())
 }
 
-var vkSrvTargets = []string{"hit.t.", "cn.t.", "cnu.t.", "sig.t.", "nx.t.", "x.nx.t.", "nxa.t.", "nd.t.", "ede.t.", "big.t.", "mid.t.", "xtra.t.", "optup.t.", "sf.t.", "ref.t.", "miss.t.", "hosts.t.", "1.10.in-addr.arpa.", "."}
+var vkSrvTargets = []string{"hit.t.", "cn.t.", "cnad.t.", "tgt.t.", "cnsig.t.", "cnu.t.", "sig.t.", "nx.t.", "x.nx.t.", "nxa.t.", "nd.t.", "ede.t.", "big.t.", "mid.t.", "xtra.t.", "optup.t.", "sf.t.", "ref.t.", "miss.t.", "hosts.t.", "1.10.in-addr.arpa.", "."}
 
 func vkSrvConfigs(thorough bool) []vkSrvCfg {
 	cfgs := []vkSrvCfg{
